@@ -1099,7 +1099,14 @@ impl Value {
     #[doc(hidden)]
     #[inline]
     pub fn copy_str_in(kind: u64, val: &str, idx: usize, shared: &mut Shared) -> Self {
-        let str = shared.get_alloc().alloc_str(val);
+        // An empty string needs no arena memory. (A zero-sized allocation in a fresh `Bump` is served
+        // from bumpalo's shared static empty chunk, which it writes to: two threads parsing at the same
+        // time would race on it.)
+        let str: &str = if val.is_empty() {
+            ""
+        } else {
+            shared.get_alloc().alloc_str(val)
+        };
         let node_idx = idx as u32;
         // we check the json length when parsing, so val.len() should always be less than u32::MAX
         Value {
